@@ -132,8 +132,11 @@ func build(p *prop, work string, tier string) (bins map[string]string, ok bool) 
 		args []string
 	}
 	targets := []target{{"props", []string{"test", "-c", "-tags", "verif", "-o", filepath.Join(work, "props.test"), "./props"}}}
-	needRace, needTool, needFuzz, need386 := false, false, false, false
+	needRace, needTool, needFuzz, need386, needPlain := false, false, false, false, false
 	for i := range p.jobs {
+		if p.jobs[i].plain && (tier == "thorough" || !p.jobs[i].thoroughOnly) {
+			needPlain = true
+		}
 		if (p.jobs[i].arch == "386" || p.jobs[i].child386) && (tier == "thorough" || !p.jobs[i].thoroughOnly) {
 			need386 = true
 		}
@@ -157,6 +160,25 @@ func build(p *prop, work string, tier string) (bins map[string]string, ok bool) 
 	if need386 {
 		// a 32-bit build of the same tests: int is 32 bits wide there (properties quantify over "any int")
 		targets = append(targets, target{"props386", []string{"test", "-c", "-tags", "verif", "-o", filepath.Join(work, "props.386.test"), "./props"}})
+	}
+	if needPlain {
+		// the build users get: no "verif" tag. The hook the tests need is supplied through a build
+		// overlay (the recorded hook file, its constraint inverted, as an extra file of the package),
+		// so that code selected by the absence of the tag is what these jobs exercise.
+		repoDir := "/repo"
+		if alt := os.Getenv("VERIF_REPO"); alt != "" {
+			repoDir = alt
+		}
+		hook, err := os.ReadFile(filepath.Join(repoDir, "verif_hooks.go"))
+		if err != nil || !strings.Contains(string(hook), "//go:build verif\n") {
+			die(2, "cannot prepare the untagged build: %s/verif_hooks.go missing or without the expected constraint", repoDir)
+		}
+		untagged := filepath.Join(work, "hooks_untagged.go")
+		os.WriteFile(untagged, []byte(strings.Replace(string(hook), "//go:build verif\n", "//go:build !verif\n", 1)), 0o644)
+		ov, _ := json.Marshal(map[string]map[string]string{"Replace": {filepath.Join(repoDir, "zz_verif_hooks_untagged.go"): untagged}})
+		ovPath := filepath.Join(work, "untagged.overlay.json")
+		os.WriteFile(ovPath, ov, 0o644)
+		targets = append(targets, target{"propsplain", []string{"test", "-c", "-vet=off", "-overlay", ovPath, "-o", filepath.Join(work, "props.plain.test"), "./props"}})
 	}
 	if needTool {
 		targets = append(targets, target{"tool", []string{"build", "-tags", "verif", "-o", filepath.Join(work, "update-wordlist"), "github.com/islishude/bip39/update-wordlist"}})
@@ -204,6 +226,8 @@ func build(p *prop, work string, tier string) (bins map[string]string, ok bool) 
 				bins[t.key] = filepath.Join(work, "props.test")
 			} else if t.key == "props386" {
 				bins[t.key] = filepath.Join(work, "props.386.test")
+			} else if t.key == "propsplain" {
+				bins[t.key] = filepath.Join(work, "props.plain.test")
 			} else if t.key == "fuzz" {
 				bins[t.key] = filepath.Join(work, "props.fuzz.test")
 			} else {
@@ -222,7 +246,7 @@ func runAll(tier string) int {
 	}
 	work := mkWork("ALL")
 	defer os.RemoveAll(work)
-	union := &prop{id: "ALL", jobs: []job{{race: true, tool: true, fuzz: "x", arch: "386"}}}
+	union := &prop{id: "ALL", jobs: []job{{race: true, tool: true, fuzz: "x", arch: "386", plain: true}}}
 	bins, ok := build(union, work, tier)
 	if !ok {
 		return 2
@@ -483,6 +507,9 @@ func runUnit(ctx context.Context, p *prop, j *job, shard, ti int, tier string, s
 	if j.arch == "386" {
 		bin = bins["props386"]
 	}
+	if j.plain {
+		bin = bins["propsplain"]
+	}
 	nshards := j.shards[ti]
 	if nshards <= 0 {
 		nshards = 1
@@ -531,6 +558,9 @@ func runUnit(ctx context.Context, p *prop, j *job, shard, ti int, tier string, s
 	if j.child386 {
 		// fresh child processes are the 32-bit build (the race detector does not exist for 386)
 		cmd.Env = append(cmd.Env, "VERIF_SELF="+bins["props386"], "VERIF_SELF_RACE="+bins["props386"])
+	}
+	if j.plain {
+		cmd.Env = append(cmd.Env, "VERIF_SELF="+bins["propsplain"])
 	}
 	cmd.Env = append(cmd.Env, j.env...)
 	var buf bytes.Buffer
